@@ -163,6 +163,10 @@ def subscript(I, o, k):
     if isinstance(o, VUndef) or isinstance(k, VUndef):
         return VUndef()
     if not I.spec:
+        if isinstance(o, VDyn) and isinstance(k, VStr):
+            o = D.exec_tag_view(I, o, "dict")
+            if o is None:
+                I.raise_exc("TypeError", "indices must be integers / object is not subscriptable")
         o = I.force(o)
         k = I.force(k)
     elif isinstance(o, VOpt):
@@ -412,6 +416,12 @@ STR_METHODS = {"lower", "upper", "strip", "split", "join", "startswith", "endswi
 def get_attribute(I, o, name, default=_NOCONST):
     if isinstance(o, VUndef):
         return VUndef()
+    if not I.spec and isinstance(o, VDyn):
+        o = D.exec_attr_view(I, o, name)
+        if o is None:
+            if default is not _NOCONST:
+                return default
+            I.raise_exc("AttributeError", name)
     if not I.spec:
         o = I.force(o)
     elif isinstance(o, VOpt):
@@ -442,7 +452,19 @@ def get_attribute(I, o, name, default=_NOCONST):
         if name == "__dict__":
             return VDictRec(o.fields)
     elif isinstance(o, VRec):
-        if name in o.fields:
+        vs = getattr(o.t, "variants", None)
+        if vs is not None and name in o.fields:
+            # tagged union of dataclasses: the field exists only on the classes that declare it
+            if name == "_cls":
+                if I.spec:
+                    return o.fields[name]      # the tag is visible to specifications only
+            else:
+                owners = [c for c, fs in vs.items() if name in fs]
+                if I.spec or len(owners) == len(vs):
+                    return o.fields[name]
+                if owners and I.path.branch(z3.Or([o.fields["_cls"].e == z3.StringVal(c) for c in owners])):
+                    return o.fields[name]
+        elif name in o.fields:
             return o.fields[name]
     elif isinstance(o, (VSeq, VEmptyList)):
         if name in SEQ_METHODS:
@@ -654,22 +676,40 @@ def instantiate(I, cls, args, kwargs):
         return VExc(cls.name, args)
     if cls.rec is not None:
         t = cls.rec
-        names = list(t.fields)
+        ci = cls.module.classes.get(cls.name) if cls.module else None
+        variants = getattr(t, "variants", None)
+        own = None
+        if variants is not None and cls.name in variants:
+            own = variants[cls.name]
+            names = [fn for fn, _ in ci.fields] if ci is not None else list(own)
+        else:
+            names = list(t.fields)
         vals = {}
         for i, a in enumerate(args):
+            if i >= len(names):
+                I.raise_exc("TypeError", "too many positional arguments")
             vals[names[i]] = a
         vals.update(kwargs)
-        ci = cls.module.classes.get(cls.name) if cls.module else None
-        for fn in names:
+        if own is not None:
+            for k2 in vals:
+                if k2 not in own:
+                    I.raise_exc("TypeError", "unexpected keyword argument %s" % k2)
+            vals["_cls"] = VStr(cls.name)
+        for fn in list(t.fields):
             if fn not in vals:
+                if own is not None and fn not in own:
+                    # a field of another class of the union: unspecified filler (never readable through this value)
+                    vals[fn] = t.fields[fn].wrap(I.default_of(t.fields[fn]))
+                    continue
                 dflt = None
                 if ci is not None:
                     for (n2, d) in ci.fields:
                         if n2 == fn:
                             dflt = d
-                if dflt is None:
+                dv = _dataclass_default(I, dflt, cls.module) if dflt is not None else None
+                if dv is None:
                     I.raise_exc("TypeError", "missing field %s" % fn)
-                vals[fn] = I.ev(dflt, Env(None, cls.module))
+                vals[fn] = dv
         out = {}
         for fn, ft in t.fields.items():
             out[fn] = ft.wrap(unwrap(vals[fn], ft))
@@ -696,10 +736,14 @@ def instantiate(I, cls, args, kwargs):
             for fn, d in ci.fields:
                 if fn in vals:
                     o.fields[fn] = vals[fn]
-                elif d is not None:
-                    o.fields[fn] = I.ev(d, Env(None, cls.module))
                 else:
-                    I.raise_exc("TypeError", "missing field %s" % fn)
+                    dv = _dataclass_default(I, d, cls.module) if d is not None else None
+                    if dv is None:
+                        I.raise_exc("TypeError", "missing field %s" % fn)
+                    o.fields[fn] = dv
+                ft = tobj.fields.get(fn) if tobj is not None else None
+                if ft is not None:
+                    o.fields[fn] = I.coerce_to(o.fields[fn], I.ver.types.parse(ft) if isinstance(ft, str) else ft)
         return o
     bt = BUILTIN_TYPES.get(cls.name)
     if bt is not None:
@@ -707,12 +751,28 @@ def instantiate(I, cls, args, kwargs):
     raise Unsupported("instantiate %s" % cls.name)
 
 
+def _dataclass_default(I, d, module):
+    """default of a dataclass field: a plain expression, or dataclasses.field(default=..., default_factory=...)"""
+    if isinstance(d, ast.Call) and ((isinstance(d.func, ast.Name) and d.func.id == "field") or
+                                    (isinstance(d.func, ast.Attribute) and d.func.attr == "field")):
+        for kw in d.keywords:
+            if kw.arg == "default":
+                return I.ev(kw.value, Env(None, module))
+            if kw.arg == "default_factory":
+                return I.call(I.ev(kw.value, Env(None, module)), [], {})
+        return None
+    return I.ev(d, Env(None, module))
+
+
 # =============================================================== builtin functions
 
 def bi_len(I, args, kw):
-    v = I.force(args[0]) if not I.spec else args[0]
+    v = args[0]
     if isinstance(v, VDyn):
+        if not I.spec and not I.path.branch(D.has_len(v)):
+            I.raise_exc("TypeError", "object has no len()")
         return VInt(D.length(I, v))
+    v = I.force(args[0]) if not I.spec else args[0]
     if isinstance(v, VSeq):
         return VInt(v.n)
     if isinstance(v, VEmptyList):
@@ -744,9 +804,9 @@ def real_to_int_trunc(r):
 def bi_int(I, args, kw):
     if not args:
         return VInt(0)
+    if isinstance(args[0], VDyn):
+        return D.to_int(I, args[0])
     v = I.force(args[0]) if not I.spec else args[0]
-    if isinstance(v, VDyn):
-        raise Unsupported("int() of a Dyn value in a specification")
     if isinstance(v, VInt):
         return v
     if isinstance(v, VBool):
@@ -794,9 +854,9 @@ def sp_int_value(I, args, kw):
 def bi_float(I, args, kw):
     if not args:
         return VReal(0)
+    if isinstance(args[0], VDyn):
+        return D.to_float(I, args[0])
     v = I.force(args[0]) if not I.spec else args[0]
-    if isinstance(v, VDyn):
-        return VReal(D.to_float(I, v))
     if is_num(v):
         return VReal(to_real(v))
     if isinstance(v, VStr):
@@ -820,9 +880,9 @@ def bi_bool(I, args, kw):
 def bi_str(I, args, kw):
     if not args:
         return VStr("")
+    if isinstance(args[0], VDyn):
+        return VStr(D.to_str_term(I, args[0]))
     v = I.force(args[0]) if not I.spec else args[0]
-    if isinstance(v, VDyn):
-        return VStr(D.to_str_term(I, v))
     if isinstance(v, VStr):
         return v
     if isinstance(v, VInt):
@@ -894,6 +954,10 @@ def bi_isinstance(I, args, kw):
         # symbolic answer (no 7-way fork on the runtime tag)
         return VBool(D.isinstance_cond(args[0], names))
     v = I.force(args[0])
+    if isinstance(v, VRec) and getattr(v.t, "variants", None) is not None:
+        if "object" in names or v.t.nm in names:
+            return VBool(True)
+        return VBool(z3.Or([v.fields["_cls"].e == z3.StringVal(nm) for nm in names if nm in v.t.variants] + [z3.BoolVal(False)]))
     return VBool(any(_isinst(I, v, nm) for nm in names))
 
 
@@ -1157,6 +1221,12 @@ def sort_seq(I, v, key):
         finally:
             I.spec = saved
     ki, kj = keyof(z3.Select(res.arr, i)), keyof(z3.Select(res.arr, j))
+    if isinstance(ki, VDyn) and not I.spec:
+        # python orders JSON-like values only number/number and string/string: anything else is a TypeError
+        allstr = z3.ForAll([i], z3.Implies(z3.And(0 <= i, i < n), D.is_str(ki.e)))
+        allnum = z3.ForAll([i], z3.Implies(z3.And(0 <= i, i < n), D.is_num(ki.e)))
+        if not p.branch(z3.Or(allstr, allnum, n <= 1)):
+            I.raise_exc("TypeError", "'<' not supported between these sort keys")
     le = I.lt(ki, kj, False)
     keq = I.eq(ki, kj)
     p.assume(z3.ForAll([i, j], z3.Implies(z3.And(0 <= i, i < j, j < n), le)))
@@ -1840,7 +1910,11 @@ def dict_comprehension(I, n, env):
 
 
 def set_comprehension(I, n, env):
-    raise Unsupported("set comprehension")
+    """{elt for x in xs if c}: the set of the elements of the corresponding list comprehension"""
+    lst = comprehension(I, n, env)
+    if isinstance(lst, VEmptyList):
+        return VEmptySet()
+    return bi_set(I, [lst], {})
 
 
 def assign_spec(self, t, v, env):
